@@ -107,7 +107,8 @@ Inductive reject :=
 | RDupInternalKey  (* check_unique_method_keys: MethodAlreadyExistsError *)
 | RClassClash      (* Interface.has_class: ValueError "classes ... have conflicting names" *)
 | RDupIfaceKey     (* process_method: ValueError "The method key ... is already taken" (C11 fix 2) *)
-| RDupMessage.     (* process_method: ValueError "The message %r defined in both ..." *)
+| RDupMessage      (* process_method: ValueError "The message %r defined in both ..." *)
+| RDupPattern.     (* HttpBase.__init__: ValueError "... answer to the same requests." (C11 fix 4) *)
 
 Inductive built (A : Type) := Built (a : A) | Rejected (r : reject).
 Arguments Built {A} a.
@@ -343,39 +344,66 @@ Fixpoint match_pattern (ps : list hpat) (verb path : text) : option text :=
   | p :: r => if pat_match verb path p then Some (snd p) else match_pattern r verb path
   end.
 
-(** the order HttpBase.__init__ puts the patterns in: reversed(sorted(set, key=address)):
-    descending by address; the order among equal addresses is the set's (not modelled),
-    so the harness passes the observed order and the model checks it is an admissible one *)
-Fixpoint sorted_desc (ps : list hpat) : bool :=
-  match ps with
-  | [] => true
-  | p :: r => match r with
-              | [] => true
-              | q :: _ => text_leb (fst (fst q)) (fst (fst p)) && sorted_desc r
-              end
-  end.
-
+(** HttpBase.__init__ (repaired): every HttpPattern of the head descriptor of every route, in dict order,
+    is entered in [taken] under (verb, host, address); a second pattern with the same key whose endpoint is
+    another descriptor raises ValueError (C11 fix 4).  The heads of two routes are two descriptors with two
+    different names (the route key is "{tns}name"), so the identity test is modelled on the names. *)
 Definition opt_text_eqb (a b : option text) : bool :=
   match a, b with
   | None, None => true
   | Some x, Some y => text_eqb x y
   | _, _ => false
   end.
-Definition hpat_eqb (p q : hpat) : bool :=
-  text_eqb (fst (fst p)) (fst (fst q)) && opt_text_eqb (snd (fst p)) (snd (fst q)) && text_eqb (snd p) (snd q).
-Fixpoint remove_one (p : hpat) (l : list hpat) : option (list hpat) :=
-  match l with
+
+Definition same_pkey (p q : hpat) : bool :=
+  text_eqb (fst (fst p)) (fst (fst q)) && opt_text_eqb (snd (fst p)) (snd (fst q)).
+
+Fixpoint taken_lookup (p : hpat) (taken : list hpat) : option hpat :=
+  match taken with
   | [] => None
-  | q :: r => if hpat_eqb p q then Some r
-              else match remove_one p r with Some r' => Some (q :: r') | None => None end
+  | q :: r => if same_pkey p q then Some q else taken_lookup p r
   end.
-Fixpoint same_multiset (a b : list hpat) : bool :=
-  match a with
-  | [] => match b with [] => true | _ => false end
-  | p :: r => match remove_one p b with Some b' => same_multiset r b' | None => false end
+
+Fixpoint check_pats (taken : list hpat) (ps : list hpat) : built unit :=
+  match ps with
+  | [] => Built tt
+  | p :: r =>
+      match taken_lookup p taken with
+      | Some q => if text_eqb (snd q) (snd p) then check_pats taken r else Rejected RDupPattern
+      | None => check_pats (taken ++ [p]) r             (* taken.setdefault(key, patt) *)
+      end
   end.
-Definition admissible_order (t : table) (ps : list hpat) : bool :=
-  same_multiset (collect_patterns t) ps && sorted_desc ps.
+
+(** the sort key (x.address, x.host or b'', x.verb or '') (C11 fix 5; host is None throughout) and
+    Python's tuple comparison on it *)
+Definition pkey (p : hpat) : text * text :=
+  (fst (fst p), match snd (fst p) with Some v => v | None => [] end).
+
+Definition key_leb (a b : text * text) : bool :=
+  if text_eqb (fst a) (fst b) then text_leb (snd a) (snd b) else text_leb (fst a) (fst b).
+
+(** list(reversed(sorted(patterns, key=...))): descending by key.  Patterns with equal keys are, after
+    check_pats, patterns of one endpoint with equal (address, verb) - equal triples here - provided no verb
+    is the empty string, so the arrangement among them is immaterial. *)
+Fixpoint insert_desc (p : hpat) (l : list hpat) : list hpat :=
+  match l with
+  | [] => [p]
+  | q :: r => if key_leb (pkey q) (pkey p) then p :: l else q :: insert_desc p r
+  end.
+
+Fixpoint sort_desc (l : list hpat) : list hpat :=
+  match l with
+  | [] => []
+  | p :: r => insert_desc p (sort_desc r)
+  end.
+
+Definition server_patterns (t : table) : built (list hpat) :=
+  let ps := collect_patterns t in
+  bbind (check_pats [] ps) (fun _ => Built (sort_desc ps)).
+
+(** Application(...) then WsgiApplication(app) *)
+Definition serve (a : app) : built (table * list hpat) :=
+  bbind (construct a) (fun t => bbind (server_patterns t) (fun ps => Built (t, ps))).
 
 (** how each protocol names the method *)
 Inductive request :=
@@ -419,7 +447,7 @@ Fixpoint zlist_eqb (a b : list Z) : bool :=
 
 Definition reject_code (r : reject) : Z :=
   match r with ROpAndIn => 1 | RMixAux => 2 | RDupInternalKey => 3 | RClassClash => 4
-             | RDupIfaceKey => 5 | RDupMessage => 6 end.
+             | RDupIfaceKey => 5 | RDupMessage => 6 | RDupPattern => 7 end.
 
 (** canonical view of a routing table: (key, uids) in dict order *)
 Definition table_view (t : table) : list (text * list Z) := map (fun kv => (fst kv, map d_uid (snd kv))) t.
@@ -431,10 +459,25 @@ Fixpoint view_eqb (a b : list (text * list Z)) : bool :=
   | _, _ => false
   end.
 
-(** observation of a construction: 0 + table, or the reject code *)
-Definition construct_obs_eqb (a : app) (code : Z) (view : list (text * list Z)) : bool :=
+(** observation of a construction: Application(...) -> 0 + table, or the reject code; then, when the
+    application was built, WsgiApplication(app) -> 0 + its _http_patterns, or the reject code *)
+Definition hpat_eqb (p q : hpat) : bool :=
+  text_eqb (fst (fst p)) (fst (fst q)) && opt_text_eqb (snd (fst p)) (snd (fst q)) && text_eqb (snd p) (snd q).
+
+Fixpoint hpats_eqb (a b : list hpat) : bool :=
+  match a, b with
+  | [], [] => true
+  | p :: a', q :: b' => hpat_eqb p q && hpats_eqb a' b'
+  | _, _ => false
+  end.
+
+Definition construct_obs_eqb (a : app) (code : Z) (view : list (text * list Z)) (scode : Z) (ps : list hpat) : bool :=
   match construct a with
-  | Built t => (code =? 0) && view_eqb (table_view t) view
+  | Built t => (code =? 0) && view_eqb (table_view t) view &&
+               match server_patterns t with
+               | Built ps' => (scode =? 0) && hpats_eqb ps' ps
+               | Rejected r => scode =? reject_code r
+               end
   | Rejected r => code =? reject_code r
   end.
 
@@ -444,10 +487,10 @@ Definition outcome_eqb (o : outcome) (found : bool) (uids : list Z) : bool :=
   | NotFound => negb found
   end.
 
-(** a request against an application: the model agrees with (found?, invoked uids) and,
-    for HTTP, the observed pattern order is admissible *)
-Definition dispatch_obs_eqb (a : app) (ps : list hpat) (r : request) (found : bool) (uids : list Z) : bool :=
-  match construct a with
-  | Built t => admissible_order t ps && outcome_eqb (dispatch (a_tns a) t ps r) found uids
+(** requests against a served application: the model agrees with (found?, invoked uids) on each *)
+Definition dispatch_obs_eqb (a : app) (rs : list (request * bool * list Z)) : bool :=
+  match serve a with
+  | Built (t, ps) => forallb (fun q : request * bool * list Z =>
+                       outcome_eqb (dispatch (a_tns a) t ps (fst (fst q))) (snd (fst q)) (snd q)) rs
   | Rejected _ => false
   end.
